@@ -6,6 +6,10 @@ props = [json.loads(l) for l in open(os.path.join(V, "properties.jsonl"))]
 
 EVAL_NOTE = "trusted: TLC; the renderer's canonical layout and path->line map; H2 hook events (emitted after each VM state change in the single evaluator goroutine); program families are bounded (sizes in the evidence)"
 CHECKS = {
+ "C16": dict(
+   technique="TLA+ isolation spec (ZnIso: process-level cells, polluter alphabet, intended design vs named deviation 'ascoded') model-checked by TLC; all polluter sequences replayed in fresh processes against a probe; all interleavings of concurrent requests replayed through the real playground handler with H4 scheduling gates; Go race detector in the thorough tier",
+   level="Sequential: TLC enumerates all 400 sequences of <= 3 polluters over a 7-letter alphabet (in-place mutation of 数值, redefinition of the constructor of 异常 and of a library type, mutation of a library default through an instance, failure three calls deep, declarations, imports); each runs on one interpreter object and on separate ones in a fresh process, followed by a probe that reads every cell, whose observation must equal the pristine one. Concurrent: all interleavings of bind-source / read-source of 2 requests (and 30 of the 90 of 3; thorough all) are forced through one ZnPlaygroundHandler by blocking gates: every request must get its own program's result. In every run TLC proves Isolation / OwnProgram for the intended design and refutes them for the deviation (sensitivity). Data races are reported by go build -race in the thorough tier.",
+   note="trusted: TLC; fresh-process baseline for the probe; H4 gates emitted before/after the field accesses; race detector (not model-checked) for the data-race clause", ref="5 C16"),
  "C15": dict(
    technique="TLA+ depth-first module loader state machine (ZnModule) model-checked by TLC over all import digraphs; TLC-emitted body traces/results replayed as directories of .zn files through LoadFile().Execute",
    level="TLC enumerates all 512 digraphs (self-loops included) on three imported modules x all 15 ordered import lists of the main file, plus all digraphs on two modules with a missing third one, runs the loader machine (body at most once, imports before body, circular error iff a cycle is reachable - checked against an independent transitive-closure definition) and emits the body trace and the result. Each of the 8256 vectors is written to disk (module names with 1-3 path segments) and executed: order and multiplicity of module bodies, error code 63 / 60, per-module probes (an imported method must be able to call its own module's helper; names of modules main did not import are undefined), plus export / read-only / selective-import probe programs.",
